@@ -182,6 +182,10 @@ func (m *USB) DecodeFromBytes(data []byte, df gopacket.DecodeFeedback) error {
 	if m.Setup {
 		m.Payload = data[40:]
 	} else if m.Data {
+		if uint64(m.UrbDataLength) > uint64(len(data)-40) {
+			df.SetTruncated()
+			return errors.New("USB data length exceeds the bytes after the header")
+		}
 		m.Payload = data[uint32(len(data))-m.UrbDataLength:]
 	}
 
@@ -217,6 +221,10 @@ func (m *USBRequestBlockSetup) NextLayerType() gopacket.LayerType {
 }
 
 func (m *USBRequestBlockSetup) DecodeFromBytes(data []byte, df gopacket.DecodeFeedback) error {
+	if len(data) < 8 {
+		df.SetTruncated()
+		return errors.New("USB request block setup < 8 bytes")
+	}
 	m.RequestType = data[0]
 	m.Request = USBRequestBlockSetupRequest(data[1])
 	m.Value = binary.LittleEndian.Uint16(data[2:4])
